@@ -93,7 +93,7 @@ namespace detail
 		GLM_FUNC_QUALIFIER static vec<4, float, Q> call(vec<4, float, Q> const& v1, vec<4, float, Q> const& v2)
 		{
 			vec<4, float, Q> result;
-			result.data = _mm_min_ps(v1.data, v2.data);
+			result.data = _mm_min_ps(v2.data, v1.data);	// (v2 < v1) ? v2 : v1, as the generic min
 			return result;
 		}
 	};
@@ -128,7 +128,7 @@ namespace detail
 		GLM_FUNC_QUALIFIER static vec<4, float, Q> call(vec<4, float, Q> const& v1, vec<4, float, Q> const& v2)
 		{
 			vec<4, float, Q> result;
-			result.data = _mm_max_ps(v1.data, v2.data);
+			result.data = _mm_max_ps(v2.data, v1.data);	// (v2 > v1) ? v2 : v1, as the generic max
 			return result;
 		}
 	};
@@ -163,7 +163,7 @@ namespace detail
 		GLM_FUNC_QUALIFIER static vec<4, float, Q> call(vec<4, float, Q> const& x, vec<4, float, Q> const& minVal, vec<4, float, Q> const& maxVal)
 		{
 			vec<4, float, Q> result;
-			result.data = _mm_min_ps(_mm_max_ps(x.data, minVal.data), maxVal.data);
+			result.data = _mm_min_ps(maxVal.data, _mm_max_ps(minVal.data, x.data));	// min(max(x, minVal), maxVal) with the generic operand order
 			return result;
 		}
 	};
